@@ -9,7 +9,7 @@
     the division of a text into lines ([case_map_ok]).  [mem_buff] (the memory buffer size that
     decides whether a frozen source lives in memory or on disk) is universally quantified too. *)
 From Coq Require Import ZArith NArith List Bool.
-From Exactly Require Import Lib.Text Model.Interval Model.TextOps Spec.C05
+From Exactly Require Import Lib.Text Model.Interval Model.LineNums Model.TextOps Spec.C13b Spec.C05
      Proofs.TextOpsEquals Proofs.TextOpsReplace Proofs.TextOpsCorrect Proofs.TextOpsFilterC13.
 Import ListNotations.
 
@@ -46,8 +46,9 @@ Section Statements.
   Proof. exact (matcher_correct_on_lines re_search re_full re_sub py_upper py_lower is_space mem_buff). Qed.
 
   (** Every text transformer (replace with and without -preserve-new-lines and -at, the strip
-      variants, char-case, filter, grep, identity, | composition), applied to any source, yields
-      exactly the documented output text ... *)
+      variants, char-case, filter LINE-MATCHER, filter -line-nums RANGE... [through C13's model and
+      C13_line_nums_exact], grep, identity, | composition), applied to any source, yields exactly
+      the documented output text ... *)
   Theorem C05_transformer_correct :
     library_assumptions py_upper py_lower is_space ->
     forall (T : ttrans) (e : tsource), text_of (ET T (ES e)) = ST T (SS e).
@@ -158,6 +159,15 @@ Example C05_example_matchers :
                (STransformed (TFilter (LLineNum (MLeaf (ICmp CEq 2)))) (SEquals (SrcStr [97]%N))))
          (file_src [97;10;97]%N) = true.
 Proof. vm_compute. reflexivity. Qed.
+
+(** [filter -line-nums -7 3] on five lines keeps line 3 only (-7 lies before the first line);
+    [filter -line-nums 3 -2] on a one-line text keeps nothing; in a chain: upper-cased afterwards *)
+Example C05_example_line_nums :
+  text_of (eval_t ex_search ex_full ex_sub ex_id ex_id ex_space 8 (TFilterLineNums [RSingle (-7); RSingle 3])
+                  (file_src [49;10; 50;10; 51;10; 52;10; 53;10]%N)) = [51;10]%N /\
+  text_of (eval_t ex_search ex_full ex_sub ex_id ex_id ex_space 8 (TSeq (TFilterLineNums [RSingle 3; RSingle (-2)]) TStrip)
+                  (str_src [111;10]%N)) = [].
+Proof. vm_compute. split; reflexivity. Qed.
 
 Example C05_example_library_assumptions : library_assumptions ex_id ex_id ex_space.
 Proof.
